@@ -66,6 +66,12 @@ def gen_case(rng, kind):
       preconditioning_compute_steps=int(rng.choice([1, 2])),
   )
   cfg["statistics_compute_steps"] = 1
+  if rng.random() < 0.3:
+    # coupled learning rate: the graft step carries lr and the final multiplier is 1, so the update is still minus the
+    # pre-momentum update
+    cfg.update(decoupled_learning_rate=False, learning_rate=float(rng.choice([0.3, 2.0])))
+  if cfg["graft_type"] in (3, 4) and rng.random() < 0.5:
+    cfg["clip_by_scaled_gradient_norm"] = float(rng.choice([0.5, 0.05]))
   if rep == "comp+":
     cfg["compression_rank"] = int(rng.choice([1, 2]))
   elif rep == "comp-":
@@ -88,8 +94,19 @@ def materialize(case):
   return params, hist
 
 
-def closed_form_graft(gt, g, acc, beta2, eps):
-  """Grafting optimizer step from the monitor's own accumulator (updated in place)."""
+def closed_form_graft(gt, g, acc, beta2, eps, clip=None, lr_coupled=None):
+  """Grafting optimizer step from the monitor's own accumulator (updated in place); RMSProp variants are clipped to a
+  scaled norm when configured; a coupled learning rate multiplies the step last."""
+  upd = _closed_form_graft(gt, g, acc, beta2, eps)
+  if clip and gt in (3, 4):
+    n = np.linalg.norm(upd) / np.sqrt(float(upd.size))
+    upd = upd / max(1.0, n / clip)
+  if lr_coupled is not None:
+    upd = upd * lr_coupled
+  return upd
+
+
+def _closed_form_graft(gt, g, acc, beta2, eps):
   g = np.asarray(g, np.float64)
   if gt in (4, 6):
     sg = g / (np.linalg.norm(g) + 1e-25)
@@ -149,7 +166,8 @@ def check_ds(case, rec):
       shape = tuple(tree[k])
       uk = np.asarray(un[k], np.float64)
       gk = np.asarray(g[k], np.float64)
-      gr = closed_form_graft(cfg.graft_type, gk, acc[k], cfg.beta2, cfg.diagonal_epsilon)
+      gr = closed_form_graft(cfg.graft_type, gk, acc[k], cfg.beta2, cfg.diagonal_epsilon, cfg.clip_by_scaled_gradient_norm,
+                             None if cfg.decoupled_learning_rate else cfg.learning_rate)
       ngr = np.linalg.norm(gr)
       rec.count("observations")
       skipped = R.skip(cfg, shape)
